@@ -8,7 +8,7 @@ use serde_json::Value;
 pub fn def() -> PropDef {
     PropDef {
         id: "C04",
-        rule: "inputs: PWB payloads (valid and near-valid, 56 B..12 KiB, one in forty up to the largest possible packet of 81 268 B) cut into 1..40 chunks (sizes that divide the payload exactly and sizes leaving a ragged tail), chunk header noise, optionally one fault (drop / duplicate / foreign board / foreign chip / toggle end-of-message / resize non-final chunk / renumber one chunk (gap or repeated id; a lone chunk with a non-zero id), at any index), delivered in the identity, reversed, one generated and - for <= 6 chunks - ALL n! arrival orders; oracle: every order gives the same result (Ok dump, or identical Err), through PwbV2Packet::try_from and through the PwbPacket wrapper alike, fault-free result equals direct decoding of the concatenated payload, every fault gives Err; non-trivial = >= 2 chunks under a non-sorted order, or a fault case; distinct by (payload, size, order, fault) hash",
+        rule: "inputs: PWB payloads (valid and near-valid, 56 B..12 KiB, one in forty up to the largest possible packet of 81 268 B) cut into 1..40 chunks (sizes that divide the payload exactly and sizes leaving a ragged tail), chunk header noise, optionally one fault (drop / duplicate / foreign board / foreign chip / toggle end-of-message / resize non-final chunk / renumber one chunk (gap or repeated id; a lone chunk with a non-zero id) / stray flag-less chunks with the next ids after the end of the message, at any index), delivered in the identity, reversed, one generated and - for <= 6 chunks - ALL n! arrival orders; oracle: every order gives the same result (Ok dump, or identical Err), through PwbV2Packet::try_from and through the PwbPacket wrapper alike, fault-free result equals direct decoding of the concatenated payload, every fault gives Err; non-trivial = >= 2 chunks under a non-sorted order, or a fault case; distinct by (payload, size, order, fault) hash",
         assumptions: &[
             "DeviceIdMismatch / ChannelIdMismatch name the first chunk of the arrival order, so only their variant is compared across orders",
             "a resize fault is only injected when there are >= 3 chunks (with 2 chunks the single non-final chunk defines the size)",
